@@ -110,13 +110,24 @@ macro_rules! akey {
     ($A:ident, $f:ident, $K:ty, [$($T:ident $c:ident),*]) => {
         impl AKey<$K> for $A {
             fn r_view_arch(w: &mut VW, k: $K) -> Option<Row> {
-                w.$f.view(k).map(|v| (tok(*v.entity), vec![$(rd(&*v.$c)),*]))
+                let r = w.$f.view(k).map(|v| (v.index(), tok(*v.entity), vec![$(rd(&*v.$c)),*]));
+                r.map(|(i, t, vals)| {
+                    if w.$f.entities().get(i).map(|e| tok(*e)) != Some(t) {
+                        reg::with(|r| r.anomalies.push(format!("view_index_mismatch:{}:{}", stringify!($A), i)));
+                    }
+                    (t, vals)
+                })
             }
             fn r_viewc_arch(w: &mut VW, k: $K) -> Option<Row> {
                 w.archetype_mut::<$A>().view(k).map(|v| (tok(*v.entity), vec![$(rd(v.component::<$T>())),*]))
             }
             fn r_borrow_arch(w: &VW, k: $K) -> Option<Row> {
-                w.$f.borrow(k).map(|b| (tok(*b.entity()), vec![$(rd(&*b.component::<$T>())),*]))
+                w.$f.borrow(k).map(|b| {
+                    if w.$f.entities().get(b.index()).map(|e| tok(*e)) != Some(tok(*b.entity())) {
+                        reg::with(|r| r.anomalies.push(format!("borrow_index_mismatch:{}:{}", stringify!($A), b.index())));
+                    }
+                    (tok(*b.entity()), vec![$(rd(&*b.component::<$T>())),*])
+                })
             }
             fn r_find(w: &mut VW, k: $K) -> Option<Row> {
                 ecs_find!(w, k, |e: &Entity<$A>, $($c: &$T),*| -> Row { (tok(*e), vec![$(rd($c)),*]) })
@@ -163,7 +174,13 @@ macro_rules! akey {
                 panic!("harness: no such column");
             }
             fn destroy_arch(w: &mut VW, k: $K) -> Option<Vec<Val>> {
-                w.$f.destroy(k).map(|c| Self::comps_vals(&c))
+                w.$f.destroy(k).map(|mut c| {
+                    let v = Self::comps_vals(&c);
+                    // Components::get_mut reaches the same fields
+                    let via_mut: Vec<Val> = vec![$(rd(&*c.get_mut::<$T>())),*];
+                    if via_mut != v { reg::with(|r| r.anomalies.push(format!("components_get_mut_mismatch:{}", stringify!($A)))); }
+                    v
+                })
             }
         }
     };
@@ -206,7 +223,14 @@ macro_rules! aops {
                 let mut it = p.iter().copied();
                 $AC { $($c: <$T as Comp>::new(it.next().unwrap_or(0)),)* }
             }
-            fn comps_vals(c: &Self::Components) -> Vec<Val> { vec![$(rd(&c.$c)),*] }
+            fn comps_vals(c: &Self::Components) -> Vec<Val> {
+                let by_field: Vec<Val> = vec![$(rd(&c.$c)),*];
+                let by_get: Vec<Val> = vec![$(rd(c.get::<$T>())),*];
+                if by_field != by_get {
+                    reg::with(|r| r.anomalies.push(format!("components_get_mismatch:{}", stringify!($A))));
+                }
+                by_field
+            }
             fn h_create(w: &mut VW, data: Self::Components, via: u8) -> Tok {
                 match via % 4 {
                     0 => tok(w.create::<$A>(data)),
